@@ -381,7 +381,7 @@ theorem sumRangeRaw_eq (mem : Bytes) (n : Nat) (h : n ≤ mem.length) : sumRange
     have hsplit : mem.take n = mem.take (n - 1) ++ [mem.getD (n - 1) 0] := by
       have : n = (n - 1) + 1 := by omega
       conv => lhs; rw [this]
-      rw [List.take_succ]
+      rw [List.take_add_one]
       simp [List.getD, List.getElem?_eq_getElem hn]
     have hlen : (mem.take (n - 1)).length = 2 * ((n - 1) / 2) := by simp; omega
     rw [hsplit, rawSum_append_odd ((n - 1) / 2) _ _ hlen, Nat.mod_eq_of_lt (rawSum_lt _)]
